@@ -89,9 +89,11 @@ func (s *Store) View(n int) *Store {
 	if n > len(s.Adds) {
 		n = len(s.Adds)
 	}
+	v.Hooks = s.Hooks
 	for i := 0; i < n; i++ {
 		b, _ := s.raw(s.Adds[i].KeyString())
 		v.put(s.Adds[i], b)
+		v.Adds = append(v.Adds, s.Adds[i])
 	}
 	return v
 }
